@@ -112,6 +112,7 @@ def run_check(prop, rule_module, argv, level="other", explanation="", assumption
         "obligations": len(ctx.findings),
         "discharged": len([f for f in ctx.findings if f.ok]),
         "rule_instance_counts": counts,
+        "instances": [{"rule": f.rule, "key": f.key, "ok": f.ok, "site": f.site} for f in ctx.findings],
         "analysed": ctx.analysed,
         "floors": floors or getattr(rule_module, "FLOORS", {}),
         "known_findings_hit": [f.key for f in viol if (prop, f.key) in known_keys],
